@@ -469,7 +469,7 @@ func c14Producers(p *Prog, r *Report) {
 		lists := map[string]bool{}
 		res := fi.Sig().Results()
 		for i := 0; i < res.Len(); i++ {
-			if _, ok := res.At(i).Type().(*types.Slice); ok && res.At(i).Name() != "" {
+			if _, ok := res.At(i).Type().Underlying().(*types.Slice); ok && res.At(i).Name() != "" {
 				lists[objID(res.At(i))] = true
 			}
 		}
